@@ -1265,10 +1265,45 @@ func ruleC15EachGroup(c *Ctx) {
 		c.undecided("C15.each-group", "symbol", aug.Pos(), name, "cannot identify the group symbol derived from the entry key")
 		return
 	}
+	// a "seen" set kept as a slice: an inner loop without side effects that
+	// compares the slice's elements with this iteration's symbol
+	member := map[*ssa.BasicBlock]bool{}
+	for _, il := range loopsOf(reader) {
+		if il == l || !l.Blocks[il.Head] || len(il.Blocks) >= len(l.Blocks) {
+			continue
+		}
+		pure, cmpSym := true, false
+		for b := range il.Blocks {
+			for _, in := range b.Instrs {
+				switch x := in.(type) {
+				case *ssa.Phi, *ssa.IndexAddr, *ssa.Index, *ssa.If, *ssa.Jump, *ssa.Extract, *ssa.DebugRef:
+				case *ssa.UnOp:
+					if x.Op == token.ARROW {
+						pure = false
+					}
+				case *ssa.BinOp:
+					if (x.Op == token.EQL || x.Op == token.NEQ) && (c.resolve(x.X) == symbol || c.resolve(x.Y) == symbol) {
+						cmpSym = true
+					}
+				case *ssa.Call:
+					if !isBuiltin(&x.Call, "len") {
+						pure = false
+					}
+				default:
+					pure = false
+				}
+			}
+		}
+		if pure && cmpSym {
+			for b := range il.Blocks {
+				member[b] = true
+			}
+		}
+	}
 	// guards of the augment call inside the loop
 	bad := ""
 	for _, f := range factsAt(aug.Block()) {
-		if !l.Blocks[f.If.Block()] || f.If.Block() == l.Head {
+		if !l.Blocks[f.If.Block()] || f.If.Block() == l.Head || member[f.If.Block()] {
 			continue
 		}
 		cond, truth := normCond(f.Cond, f.Truth)
@@ -1310,6 +1345,24 @@ func ruleC15EachGroup(c *Ctx) {
 		if c.resolve(mu.Key) != symbol {
 			okSeen = false
 			c.violate("C15.each-group", "seen-key", mu.Pos(), name, "a symbol other than the one just handled is marked as done: that group's own entries (e.g. a parent listed after its subgroup) would never be read")
+		}
+	})
+	// … or, when it is a slice, only ever appended this iteration's symbol
+	allInstrs(reader, func(in ssa.Instruction) {
+		call, ok := in.(*ssa.Call)
+		if !ok || !isBuiltin(&call.Call, "append") || len(member) == 0 {
+			return
+		}
+		sl, ok := call.Type().Underlying().(*types.Slice)
+		if !ok || !isNamed(sl.Elem(), modPath+"/sizes", "RefGroupSymbol") {
+			return
+		}
+		nUpd++
+		for _, el := range c.sliceElemValues(call.Call.Args[1]) {
+			if el != nil && c.resolve(el) != symbol {
+				okSeen = false
+				c.violate("C15.each-group", "seen-key", call.Pos(), name, "a symbol other than the one just handled is marked as done: that group's own entries (e.g. a parent listed after its subgroup) would never be read")
+			}
 		}
 	})
 	if okSeen && nUpd > 0 {
